@@ -147,6 +147,24 @@ def monitor(ex, final):
                 raise V(ex, 'message-dispatched-twice', u['kind'],
                         'session %d: %s fired %d message events' % (s.ord, tag, 2))
             seen[tag] = t
+        # an UPGRADE packet in an accepted polling body is answered with a NOOP
+        if final and not s.upg_attempts and s.kind == 'polling' and s.main_ws is None and \
+                not s.vanished and not any(e == 'disconnect' for _, e, _ in evs):
+            n5 = 0
+            for u in units:
+                d = u['e'].get('det')
+                if u['kind'] == 'post' and u['eff'][0] == 'ok' and d and d['live'] and \
+                        d['settled_after'] and u['e']['req'].done and u['e']['req'].status == 200:
+                    for pt, allowed, binary in u['eff'][1]:
+                        if pt == 1 or pt in (0, 2, 6, 7, 8, 9):
+                            break
+                        if pt == 5:
+                            n5 += 1
+            n6 = sum(1 for (t, via, pt, payload, where) in s.received if pt == 6)
+            if n6 < n5:
+                raise V(ex, 'upgrade-packet-not-answered-with-noop', 'polling',
+                        'session %d: %d UPGRADE packets accepted, %d NOOP received' % (
+                            s.ord, n5, n6))
         # required deliveries and per-type behaviour, for units issued at a quiet point
         order = [find_tag(a) for _, a in msgs]
         for u in units:
@@ -305,11 +323,90 @@ def summarize(ex):
     return {'message_events': n, 'sessions': len(ex.sessions)}, nt, sorted(cls)
 
 
+def pong_rearm_case(case, ctx=None):
+    """A PONG re-arms the heartbeat in every session state: the next PING is emitted exactly
+    ping_interval after it (enumerated product, not sampled)."""
+    from vk.machine import Exec
+    impl, state, pos, I, T, extra = case
+    rep = {'pong_rearm': list(case)}
+    ex = Exec(impl, {'ping_interval': I, 'ping_timeout': T, 'http_compression': False,
+                     'async_handlers': False})
+    try:
+        ex.do({'op': 'open', 'transport': 'websocket' if state == 'ws-first' else 'polling',
+               'autopong': False, 'autopoll': state != 'ws-first'})
+        s = ex.sessions[0]
+        if state == 'upgraded':
+            for fr in ('2probe', '5'):
+                if fr == '2probe':
+                    ex.do({'op': 'upg_connect', 's': 0})
+                ex.do({'op': 'ws_send', 's': 0, 'sock': 'upg', 'frame': rm.tag(fr)})
+        ex.do({'op': 'advance', 'dt': I})
+        if not s.pings:
+            raise V(ex, 'first-ping-missing', state, 'no PING %s after open' % I)
+        if extra:
+            ex.do({'op': 'advance', 'dt': extra})
+        if state == 'mid-upgrade':
+            ex.do({'op': 'upg_connect', 's': 0})
+            ex.do({'op': 'ws_send', 's': 0, 'sock': 'upg', 'frame': rm.tag('2probe')})
+        t_pong = ex.now
+        n_before = len(s.pings)
+        if s.main_ws is not None:
+            ex.do({'op': 'ws_send', 's': 0, 'sock': 'main', 'frame': rm.tag('3')})
+        else:
+            pk = {'first': [[3, rm.tag(None)], [4, rm.tag('C0.1~')]],
+                  'middle': [[4, rm.tag('C0.1~')], [3, rm.tag(None)], [4, rm.tag('C0.2~')]],
+                  'alone': [[3, rm.tag(None)]]}[pos]
+            ex.do({'op': 'post', 's': 0, 'pkts': pk})
+        if state == 'mid-upgrade':
+            ex.do({'op': 'ws_send', 's': 0, 'sock': 'upg', 'frame': rm.tag('5')})
+        ex.do({'op': 'advance', 'dt': I + 2.0 ** -10})
+        new = s.pings[n_before:]
+        evs = ex.events_for(s)
+        if any(e == 'disconnect' for _, e, _ in evs):
+            raise V(ex, 'pong-did-not-keep-session', state + '|' + pos,
+                    'session ended %r although the PING was answered after %s (T=%s)' % (
+                        [a for _, e, a in evs if e == 'disconnect'], extra, T))
+        if not any(abs(t - (t_pong + I)) < 1e-6 for t in new):
+            raise V(ex, 'pong-did-not-rearm-heartbeat', state + '|' + pos,
+                    'PONG at %.4f (%s, %s): no PING at %.4f; PINGs seen afterwards at %s' % (
+                        t_pong - 2 ** 20, state, pos, t_pong + I - 2 ** 20,
+                        [round(t - 2 ** 20, 4) for t in new]))
+        if ctx:
+            ctx.case(rep, True, [impl, 'pong-rearm-' + state])
+    except Violation as v:
+        v.case = rep
+        raise
+    finally:
+        ex.close()
+
+
+def pong_rearm_cases():
+    import itertools
+    for impl, state, pos, (I, T), extra in itertools.product(
+            ('thread', 'async'), ('polling', 'ws-first', 'upgraded', 'mid-upgrade'),
+            ('first', 'middle', 'alone'), ((2, 2), (5, 1), (1, 2.5)), (0, 0.5)):
+        if state in ('ws-first', 'upgraded') and pos != 'alone':
+            continue
+        yield (impl, state, pos, I, T, extra if extra < T else 0)
+
+
 def run_shard(ctx):
     quick = ctx.tier == 'quick'
+    for i, c in enumerate(pong_rearm_cases()):
+        if i % ctx.nshards != ctx.shard:
+            continue
+        try:
+            pong_rearm_case(c, ctx)
+        except Violation as v:
+            if ctx.is_known(v):
+                ctx.note_known(v)
+            elif v.signature not in ctx.ignored:
+                ctx.add_violation(v)
     history_property(ctx, ID, PROFILE, [monitor], summarize,
                      max_examples=200 if quick else 3000, steps=30 if quick else 60)
 
 
 def replay(case, ctx):
+    if 'pong_rearm' in case:
+        return pong_rearm_case(tuple(case['pong_rearm']))
     run_trace(ID, case, [monitor])
